@@ -26,8 +26,10 @@ RULE = ('matrix: every (operator, left, right) over the 14 binary operators and 
         '(1..3 arguments) and of a name bound to null, whose arguments must all be evaluated, in order, before the run fails '
         'with BareScriptRuntimeError, plus a leaf rebind() that re-binds a called name; alias: every expression built-in x every argument tuple of arity <= 3 over a '
         '12-value pool against the library function it is documented to alias; shadow: a global or local binding wins over '
-        'every built-in. Non-trivial: a matrix cell whose result is not null; a tree where some valuation leaves a leaf '
-        'unevaluated; an order tree with at least two leaves; an alias call that returns a non-null value; a shadowed name whose built-in accepts the argument 1.')
+        'every built-in; libshadow: two-step history on one globals object - bind the aliased library NAME to a script function / host '
+        'function / value / null, then the built-in must still give the stock library function\'s result. Non-trivial: a matrix cell whose result is not null; a tree where some valuation leaves a leaf '
+        'unevaluated; an order tree with at least two leaves; an alias call that returns a non-null value; a shadowed name whose built-in accepts the argument 1; a libshadow case whose user binding is callable and would '
+        'give a different result.')
 ASSUMPTIONS = [
     'appendix A.2 operator table; numbers are doubles and exclude booleans; the sign of a zero result is not compared',
     'UNSPECIFIED (skipped, counted): division/modulo by zero, modulo with operands of different sign, non-finite or non-real '
@@ -561,6 +563,86 @@ def fam_shadow(arg):
     return acc.result()
 
 
+# (d) the alias table when the aliased LIBRARY name is shadowed: a two-step history on one globals object
+
+_DT1 = datetime.datetime(2024, 3, 10, 12, 30, 45, 678000)
+_DT2 = datetime.datetime(1999, 12, 31, 23, 59, 58, 1000)
+_ONE_DT = [(_DT1,), (_DT2,)]
+LIBSHADOW_ARGS = {       # two argument tuples per deterministic built-in, written by hand
+    'abs': [(-1,), (2.5,)], 'acos': [(1,), (0,)], 'asin': [(1,), (0.5,)], 'atan': [(1,), (0,)], 'atan2': [(1, 1), (0, -1)],
+    'ceil': [(2.5,), (-1.5,)], 'charCodeAt': [('abc', 1), ('b', 0)], 'cos': [(0,), (1,)], 'date': [(2024, 3, 10), (1999, 12, 31)],
+    'day': _ONE_DT, 'endsWith': [('abc', 'c'), ('abc', 'b')], 'indexOf': [('abc', 'c'), ('abc', 'z')], 'fixed': [(2.5, 1), (10, 2)],
+    'floor': [(2.5,), (-1.5,)], 'fromCharCode': [(97,), (97, 98)], 'hour': _ONE_DT, 'lastIndexOf': [('abca', 'a'), ('abc', 'z')],
+    'len': [('abc',), ('',)], 'lower': [('ABC',), ('b',)], 'ln': [(1,), (10,)], 'log': [(10,), (100,)], 'max': [(1, 2.5), (10, -1, 0)],
+    'min': [(1, 2.5), (10, -1, 0)], 'millisecond': _ONE_DT, 'minute': _ONE_DT, 'month': _ONE_DT, 'parseInt': [('12',), ('ff', 16)],
+    'parseFloat': [('2.5',), ('1e+3',)], 'pi': [(), (1,)], 'replace': [('abc', 'b', 'x'), ('aaa', 'a', 'b')], 'rept': [('ab', 2), ('b', 0)],
+    'round': [(2.5,), (2.567, 2)], 'second': _ONE_DT, 'sign': [(-1,), (2.5,)], 'sin': [(0,), (1,)], 'slice': [('abc', 1), ('abc', 0, 2)],
+    'sqrt': [(4,), (2,)], 'startsWith': [('abc', 'a'), ('abc', 'b')], 'text': [(1,), (None,)], 'tan': [(0,), (1,)],
+    'trim': [(' 12 ',), ('b',)], 'upper': [('abc',), ('b',)], 'year': _ONE_DT,
+}
+LIBSHADOW_KINDS = ['script function', 'host function', 'plain value', 'null']
+SHADOW_MARKER = 'user-defined'
+
+
+def shadowed_globals(lib, kind):
+    """Step 1 of the history: a globals object in which the library name `lib` is bound to something of the user's."""
+    bs = load_impl()
+    glob = {}
+    if kind == 'script function':
+        bs.execute_script(bs.parse_script(f"function {lib}(a, b, c):\n    return '{SHADOW_MARKER}'\nendfunction\n"), {'globals': glob})
+    elif kind == 'host function':
+        glob[lib] = lambda args, options: SHADOW_MARKER
+    elif kind == 'plain value':
+        glob[lib] = 42
+    else:
+        glob[lib] = None
+    return glob
+
+
+def check_libshadow(case, acc):
+    bs = load_impl()
+    alias, kind, k = case['alias'], case['kind'], case['k']
+    lib = dict((a, l) for a, l, _ in ALIASES)[alias]
+    args = LIBSHADOW_ARGS[alias][k]
+    case = dict(case, library=lib, text=f'{lib} := {kind}; {alias}{args!r}')
+
+    def bind(glob):
+        for n, v in enumerate(copy.deepcopy(list(args))):
+            glob[f'x{n}'] = v
+        return glob
+
+    # the stock library function: called by its library name from a script on untouched globals
+    want = guarded(bs.execute_script, {'statements': [{'return': {'expr': call_model(lib, len(args))}}]}, {'globals': bind({})})
+    glob = bind(shadowed_globals(lib, kind))
+    bound = glob.get(lib)
+    got = guarded(bs.evaluate_expression, call_model(alias, len(args)), {'globals': glob, 'statementCount': 0}, None, True)
+    acc.evals += 2
+    acc.states += 2            # the globals object after step 1 and after step 2
+    acc.transitions += 2
+    acc.traces += 1
+    got_obs = ('value', obs(got[1])) if got[0] == 'value' else got
+    want_obs = ('value', obs(want[1])) if want[0] == 'value' else want
+    if got_obs != want_obs:
+        acc.violation(case, want_obs, got_obs, f'with the library name {lib} bound to a {kind} in globals, the built-in {alias} no longer behaves as the library function')
+    if glob.get(lib) is not bound:
+        acc.violation(case, 'the user binding kept', 'binding replaced', f'evaluating {alias} replaced the user\'s binding of {lib}')
+    return want_obs
+
+
+def fam_libshadow(arg):
+    acc = Acc('libshadow')
+    for alias in arg:
+        for kind in LIBSHADOW_KINDS:
+            for k in range(2):
+                acc.cases += 1
+                out = check_libshadow({'alias': alias, 'kind': kind, 'k': k}, acc)
+                acc.outcome((alias, out))
+                if callable(shadowed_globals('mathAbs', kind)['mathAbs']) and out != ('value', SHADOW_MARKER):
+                    acc.nontrivial += 1       # calling the user's binding instead would be visible in the result
+        acc.sample({'step1': f'{dict((a, l) for a, l, _ in ALIASES)[alias]} bound to a host function', 'step2': f'{alias}{LIBSHADOW_ARGS[alias][0]!r}'})
+    return acc.result()
+
+
 # ---------------------------------------------------------------------------------------------------------------------
 
 
@@ -603,11 +685,14 @@ def families(tier):
         Family('alias', fam_alias, split(names, 46),
                f'{len(names)} expression built-ins x every argument tuple of arity <= {MAX_ARITY} over {len(gx.ALIAS_POOL)} values ({ntuples} tuples; now/today/rand called once)',
                expected=(len(names) - len(NONDETERMINISTIC)) * ntuples + len(NONDETERMINISTIC)),
+        Family('libshadow', fam_libshadow, split([n for n in names if n not in NONDETERMINISTIC], 8),
+               f'{len(LIBSHADOW_ARGS)} deterministic built-ins x {len(LIBSHADOW_KINDS)} kinds of user binding of the aliased library name x 2 argument tuples',
+               expected=len(LIBSHADOW_ARGS) * len(LIBSHADOW_KINDS) * 2),
         Family('shadow', fam_shadow, split(names, 2), 'every expression built-in name bound in globals / in locals', expected=2 * len(names)),
     ]
 
 
-_CHECKS = {'matrix': check_matrix, 'effects': check_effects, 'order': check_effects, 'callee': check_effects, 'alias': check_alias, 'shadow': check_shadow}
+_CHECKS = {'matrix': check_matrix, 'effects': check_effects, 'order': check_effects, 'callee': check_effects, 'alias': check_alias, 'shadow': check_shadow, 'libshadow': check_libshadow}
 
 
 def replay(family, case):
